@@ -463,6 +463,11 @@ pub struct WaitingState<'a, T: 'a + std::fmt::Debug> {
     config: WaitingConfig<'a, T>,
     layer_stack: LayerStack,
     prev_queue_len: QueueLen,
+    /// With `quick_tap_hold_timeout`, `timeout` starts reduced by the time that the press spent
+    /// in the queue and saturates at 0, which loses how long before the timeout a release
+    /// happened that has been in the queue for a while as well. These are the configured timeout
+    /// and the time that the press spent in the queue.
+    quick_timing: Option<(u16, u16)>,
 }
 
 /// Actions that can be triggered for a key configured for HoldTap.
@@ -561,7 +566,17 @@ impl<'a, T: std::fmt::Debug> WaitingState<'a, T> {
             .iter()
             .find(|s| self.is_corresponding_release(&s.event))
         {
-            if self.timeout > self.delay.saturating_sub(since) {
+            let released_before_timeout = match self.quick_timing {
+                Some((timeout, press_delay)) => {
+                    // Ticks from the press to the release, as they were queued.
+                    // This is the same as `self.timeout > 0` for a release that is seen in the
+                    // tick after it was queued.
+                    let held = i32::from(press_delay) + i32::from(self.ticks) - i32::from(since);
+                    i32::from(timeout) - 1 - held.max(1) > 0
+                }
+                None => self.timeout > self.delay.saturating_sub(since),
+            };
+            if released_before_timeout {
                 Some(WaitingAction::Tap)
             } else {
                 Some(WaitingAction::Timeout)
@@ -1745,6 +1760,11 @@ impl<'a, const C: usize, const R: usize, T: 'a + Copy + std::fmt::Debug> Layout<
                         config: WaitingConfig::HoldTap(*config),
                         layer_stack: layer_stack.collect(),
                         prev_queue_len: QueueLen::MAX,
+                        quick_timing: if self.quick_tap_hold_timeout {
+                            Some((*timeout, delay))
+                        } else {
+                            None
+                        },
                     };
                     if self.waiting.is_some() {
                         self.extra_waiting.push_back(waiting);
@@ -1800,6 +1820,7 @@ impl<'a, const C: usize, const R: usize, T: 'a + Copy + std::fmt::Debug> Layout<
                             }),
                             layer_stack: layer_stack.collect(),
                             prev_queue_len: QueueLen::MAX,
+                            quick_timing: None,
                         });
                     }
                     TapDanceConfig::Eager => {
@@ -1844,6 +1865,7 @@ impl<'a, const C: usize, const R: usize, T: 'a + Copy + std::fmt::Debug> Layout<
                     config: WaitingConfig::Chord(chords),
                     layer_stack: layer_stack.collect(),
                     prev_queue_len: QueueLen::MAX,
+                    quick_timing: None,
                 });
             }
             &KeyCode(keycode) => {
